@@ -141,6 +141,7 @@ OK = {
 # compositions: (name, outer kind, inner kind, independent_middleware, how)
 COMPOSITIONS = [
     ('alone', None, None, True, 'mw'),
+    ('alone-positional', None, None, True, 'mwpos'),
     ('cors_enable', None, None, True, 'flag'),
     ('cors_enable+noop', 'noop', None, True, 'flag'),       # App(cors_enable=True, middleware=[noop])
     ('cors_enable+single', 'noop', None, True, 'flag1'),    # middleware given as a bare object
@@ -383,9 +384,14 @@ def build_app(comp, stack, cfg, nm, static_dir):
     App = falcon.asgi.App if is_async else falcon.App
     o = build_component(outer, is_async) if outer else None
     i = build_component(inner, is_async) if inner else None
-    if how == 'mw':
-        mid = falcon.CORSMiddleware(allow_origins=cfg[0], allow_credentials=cfg[1], expose_headers=cfg[2]) \
-            if cfg is not None else build_placeholder(is_async)
+    if how in ('mw', 'mwpos'):
+        if cfg is None:
+            mid = build_placeholder(is_async)
+        elif how == 'mwpos':
+            # the released positional order: (allow_origins, expose_headers, allow_credentials)
+            mid = falcon.CORSMiddleware(cfg[0], cfg[2], cfg[1])
+        else:
+            mid = falcon.CORSMiddleware(allow_origins=cfg[0], allow_credentials=cfg[1], expose_headers=cfg[2])
         mw = [x for x in (o, mid, i) if x is not None]
         app = App(middleware=mw, independent_middleware=independent)
     else:
@@ -495,7 +501,7 @@ def run_shard(shard, rep):
     comp = COMPOSITIONS[ci]
     nm = names(seed)
     cfgs = configs(nm, tier)
-    if comp[4] != 'mw':
+    if comp[4] not in ('mw', 'mwpos'):
         cfgs = [('*', None, None)]      # cors_enable=True constructs the default policy
     shapes = req_shapes(nm, tier)
     orgs = origins(nm, tier)
@@ -581,7 +587,7 @@ def check(rep):
         shards = []
         step = 4 if rep.tier == 'quick' else 6
         for ci, comp in enumerate(COMPOSITIONS):
-            n = len(cfgs) if comp[4] == 'mw' else 1
+            n = len(cfgs) if comp[4] in ('mw', 'mwpos') else 1
             for stack in ('wsgi', 'asgi'):
                 for lo in range(0, n, step):
                     shards.append((ci, stack, lo, min(n, lo + step), rep.seed, rep.tier, root))
